@@ -69,6 +69,25 @@ func (r *Raw) InjectIP(proto uint8, payload []byte) {
 	r.w.Inject(r.n, 1, r.netProto(), pkt, "", "")
 }
 
+// InjectBatch delivers several IP payloads of one protocol before the connection's protocol
+// goroutine runs (they end up in one handleSegments batch).
+func (r *Raw) InjectBatch(ep tcpip.Endpoint, proto uint8, payloads ...[]byte) {
+	release := tcp.VerifHoldWork(ep)
+	p := r.n.Ports[1]
+	for _, payload := range payloads {
+		var pkt []byte
+		if r.v6 {
+			pkt = ref.BuildIPv6(r.pAddr, r.sAddr, proto, 64, payload)
+		} else {
+			r.ipID++
+			pkt = ref.BuildIPv4(r.pAddr, r.sAddr, proto, r.ipID, 0, 0, 64, payload)
+		}
+		p.disp.DeliverNetworkPacket(p, "", "", r.netProto(), chunked(pkt))
+	}
+	release()
+	r.w.Settle()
+}
+
 // SendTCP injects one TCP segment from the peer.
 func (r *Raw) SendTCP(sport, dport uint16, seq, ack uint32, flags uint8, wnd uint16, opts, payload []byte) {
 	r.InjectIP(ref.ProtoTCP, ref.BuildTCP(sport, dport, seq, ack, flags, wnd, opts, payload, r.pAddr, r.sAddr))
@@ -287,6 +306,8 @@ type rawRun struct {
 	frDone                 bool
 	probed                 bool
 	sendingProbe           bool
+	straddled              bool
+	straddleSlack          int
 	shrunk                 bool
 	pSentMax               uint32 // highest sequence number (exclusive) a conforming send has covered
 	inTimerStep            bool
@@ -1151,6 +1172,22 @@ func (x *rawRun) menu() []action {
 				x.sendingProbe = false
 			}})
 		}
+		if x.dev('o') && !x.probed && !x.straddled {
+			// the segment that straddles the right edge arrives whole (only its head is inside the
+			// window), and right behind it, before the stack has answered, a segment that lies
+			// wholly beyond the edge
+			m = append(m, action{name: fmt.Sprintf("non-conforming peer sends all of [%d,+%d) (only %d bytes fit) and right behind it 8 bytes wholly beyond the advertised window", s[0], s[1], k), cost: 1, do: func() {
+				x.straddled = true
+				x.straddleSlack = s[1] - k // the stack takes a partly acceptable segment whole
+				seq := x.cfg.PeerISS + 1 + uint32(s[0])
+				if end := seq + uint32(s[1]); x.pSentMax == 0 || ref.SeqLT(x.pSentMax, end) {
+					x.pSentMax = end
+				}
+				x.r.InjectBatch(x.ep, ref.ProtoTCP,
+					ref.BuildTCP(peerPort, x.sPort, seq, x.rcvNxt, ref.ACK|ref.PSH, uint16(x.cfg.PeerWnd), x.segOpts(nil), x.pData[s[0]:s[0]+s[1]], x.r.pAddr, x.r.sAddr),
+					ref.BuildTCP(peerPort, x.sPort, seq+uint32(s[1]), x.rcvNxt, ref.ACK|ref.PSH, uint16(x.cfg.PeerWnd), x.segOpts(nil), []byte("XXXXXXXX"), x.r.pAddr, x.r.sAddr))
+			}})
+		}
 	case len(x.pSegs) > 0 && x.established && !x.fits(x.pSegs[0]) && x.cfg.Read == "stall" && !x.drain:
 		m = append(m, action{name: "peer is blocked by the advertised window; application starts reading", do: func() { x.drain = true }})
 		if x.dev('o') && !x.probed {
@@ -1287,7 +1324,7 @@ func (x *rawRun) afterStep() {
 		if un := int(x.pAcked-x.cfg.PeerISS-1) - len(x.got); un > x.maxUnread {
 			x.maxUnread = un
 		}
-		if x.cfg.RcvBuf > 0 && x.maxUnread > x.cfg.RcvBuf {
+		if x.cfg.RcvBuf > 0 && x.maxUnread > x.cfg.RcvBuf+x.straddleSlack {
 			x.fail("C04", "window-not-closing", "window-not-closing", "the stack has accepted %d bytes the application has not read, more than its receive buffer of %d: the advertised window did not close", x.maxUnread, x.cfg.RcvBuf)
 		}
 	}
@@ -1395,7 +1432,7 @@ func (x *rawRun) atEnd() {
 			x.fail("C02", "idle-with-work", "stall", "the run has ended (nothing in flight, no application call, no timer that would send) but the endpoint still has work: sndUna=+%d sndNxt=+%d queued-to=+%d, peer window %d, retransmission timer not armed", st.SndUna-x.sIss, st.SndNxt-x.sIss, st.SndNxtList-x.sIss, st.SndWnd)
 		}
 	}
-	if x.has('s') && bytes.Contains(x.got, []byte("XXXXXXXX")) {
+	if (x.has('s') || x.has('w')) && bytes.Contains(x.got, []byte("XXXXXXXX")) {
 		x.fail("C04", "beyond-window-delivered", "beyond-window-delivered", "data sent wholly beyond the advertised window reached the application")
 	}
 }
